@@ -359,11 +359,21 @@ func evalClassDeclareStmt(vm *r.VM, node *syntax.ClassDeclareStmt) error {
 		return err
 	}
 
-	// then add symbol to export value
-	if err := module.AddExportValue(className.GetLiteral(), classRef); err != nil {
-		return err
+	// then add symbol to export value (declarations of the module body only)
+	if isModuleBody(vm) {
+		if err := module.AddExportValue(className.GetLiteral(), classRef); err != nil {
+			return err
+		}
 	}
 	return nil
+}
+
+// isModuleBody - is the statement being executed part of a module's own body (and not of the
+// body of a method)? A method or type declared inside a method body belongs to that body:
+// it ends with the call and is not an export of the module.
+func isModuleBody(vm *r.VM) bool {
+	frame := vm.GetCurrentCallFrame()
+	return frame == nil || !frame.IsFunctionCallFrame()
 }
 
 // 如何XX？
@@ -382,8 +392,8 @@ func evalFunctionDeclareStmt(vm *r.VM, node *syntax.FunctionDeclareStmt) error {
 		return err
 	}
 
-	// then add symbol to export value
-	if module != nil {
+	// then add symbol to export value (declarations of the module body only)
+	if module != nil && isModuleBody(vm) {
 		if err := module.AddExportValue(vtag.GetLiteral(), fn); err != nil {
 			return err
 		}
